@@ -43,4 +43,12 @@ the stored timestamp; without this line the re-proposal after a crash is not val
 `replay_not_refused_partial` has no counterpart in the code -/
 theorem proposal_keeps_signed_timestamp : Facts.cs_proposal_keeps_signed_timestamp = true := by decide
 
+/-- which loader is used where: every node start goes through `LoadOrGenFilePV` (model:
+`Sign.nodeLoader`), which loads key AND state when the key file exists (`Sign.loaderDecision`);
+`LoadFilePV` reads the state file, `LoadFilePVEmptyState` does not and is what the reset command
+uses; `init` uses `LoadFilePV` -/
+theorem loaders : Facts.pv_node_loader = true ∧ Facts.pv_loadOrGen_key_cond = "tmos.FileExists(keyFilePath)" ∧
+    Facts.pv_loadOrGen_loads = true ∧ Facts.pv_load_reads_state = true ∧ Facts.pv_emptystate_skips_state = true ∧
+    Facts.pv_reset_uses_emptystate = true ∧ Facts.pv_init_uses_load = true := by decide
+
 end Tmv.Expect.C04
